@@ -15,7 +15,8 @@ from decimal import Decimal
 from hypothesis import strategies as st
 
 from ..runner import Violation
-from ..guards import unchanged
+from ..guards import unchanged, _same as same_value
+from .. import argforms as AF
 from .. import tables_c20 as R
 
 PROPERTY = "C20"
@@ -29,8 +30,8 @@ RULE = ("sweep: for each of the 118 elements (plus the neutron slot of the cryst
         "attribute, no key or an exception; every element and every ion of the table (and the same of its first isotope) is asked for f0 through .xray.f0; fxrayatq spellings 'Na+' and charge=c resolve to the entry of that ion. "
         "j0(0) within 0.5 % of 1 and j2/j4/j6 at Q=0 equal 0 for all 98 charge states. generated: (entry, order, "
         "1-6 Q values in [0, 30], scalar/list/ndarray call, table) -> *_Q(Q), fxrayatq and .xray.f0 equal the "
-        "documented sum of exponentials evaluated with math.exp/fsum; a list/ndarray Q handed to the library must come back "
-        "unchanged; 'reuse' cases hand ONE list/ndarray object to every available order (j0, j2, j4, j6, J, M) of two "
+        "documented sum of exponentials evaluated with math.exp/fsum; Q is handed over in a drawn argument form (scalars, list, tuple, ndarray layouts and "
+        "integer dtypes, read-only), the result must have the argument's shape and the argument must come back unchanged; 'reuse' cases hand ONE list/ndarray object to every available order (j0, j2, j4, j6, J, M) of two "
         "ions and to .xray.f0 / fxrayatq / fxrayatstol of two labels in a row and judge every result against the "
         "intended Q values. Every entry is non-trivial (finite domain swept "
         "completely); generated cases are non-trivial when some Q > 0; distinct by (table, element, group) / by value.")
@@ -46,6 +47,10 @@ ASSUMPTIONS = [
     "form-factor values: |got - want| <= 1e-12 * sum(|terms|) (the sum of the absolute terms bounds the operands of "
     "the additions, so the bound is also the absolute floor where terms cancel) + 1e-300 (subnormal products of "
     "s^2 for Q < 1e-150 have no relative precision); j2/j4/j6 carry the factor s^2",
+    "Q is handed over in every form of pbt/argforms.py (Python/numpy scalars, 0-d, list, tuple, ndarray 1-d / strided "
+    "/ negative stride / C and Fortran 2-D / column / broadcast view, float64 / int64 / int32, read-only); all of them "
+    "work on the unchanged tree for every function. float32 Q is left out: the library then computes in single "
+    "precision (errors ~1e-7), which nothing documents either way",
     "ions of D and T are not asked for f0 (symbol 'D1+' is C05's matter, S24)",
 ]
 EXHAUSTIVE = True
@@ -397,24 +402,59 @@ def mff_value(coef, jn, Q):
     return math.fsum(terms), math.fsum(abs(t) for t in terms)
 
 
-def _call(fn, qs, how, case=None):
-    """Call fn with the Q values as scalar(s) / list / ndarray; returns list of floats.  A list or
-    array handed to the library must come back unchanged (bucket c20:argument-modified:Q)."""
+LEGACY_FORMS = {"list": ["list"], "ndarray": ["nd", "1d", "float64", False]}
+
+
+def _form(how, values):
+    """Argument form for *values*: legacy names, and integer dtypes only when the values are integral."""
+    form = LEGACY_FORMS.get(how, how) if isinstance(how, str) else list(how)
+    if len(form) > 1 and str(form[-1 if form[0] != "nd" else 2]).startswith("int") and not AF.integral_ok(values):
+        form = list(form)
+        form[-1 if form[0] != "nd" else 2] = "float64" if form[0] != "py" else "float"
+    if form[0] in ("py", "np", "0d") and len(values) != 1:
+        form = ["list"]
+    return form
+
+
+def form_label(how):
+    if isinstance(how, str):
+        return how
+    return ":".join(str(x) for x in how[:3]) + (":ro" if how[0] == "nd" and how[3] else "")
+
+
+def _guarded(fn, arg, form, desc, case, name="Q"):
+    """fn(arg) with the argument guarded: it must come back unchanged, and a write attempt into a read-only
+    argument (which numpy refuses loudly) is the same defect."""
+    try:
+        with unchanged("c20", case, **{name: arg}):
+            return fn(arg)
+    except ValueError as e:
+        if form[0] == "nd" and form[3] and "read-only" in str(e):
+            raise Violation("c20:argument-modified:" + name,
+                            "%s tried to write into its read-only argument: %s" % (desc, e), case)
+        raise
+
+
+def _call(fn, qs, how, case=None, desc="call"):
+    """Call fn with the Q values in the given argument form (pbt/argforms.py; "scalar" = one Python float per
+    call); returns the results as a flat list in the order of qs.  The result must have the shape of the
+    argument, and the argument must come back unchanged."""
     import numpy
     if how == "scalar":
         out = []
         for q in qs:
             v = fn(q)
             if numpy.shape(v) != ():
-                raise Violation("c20:formula:shape", "scalar Q gave a result of shape %r" % (numpy.shape(v),), case)
+                raise Violation("c20:formula:shape", "%s: scalar Q gave a result of shape %r" % (desc, numpy.shape(v)), case)
             out.append(float(v))
         return out
-    arg = list(qs) if how == "list" else numpy.array(qs, dtype=float)
-    with unchanged("c20", case, Q=arg):
-        v = numpy.asarray(fn(arg))
-    if v.shape != (len(qs),):
-        raise Violation("c20:formula:shape", "%d Q values (%s) gave a result of shape %r" % (len(qs), how, v.shape), case)
-    return [float(x) for x in v]
+    form = _form(how, qs)
+    arg, shape = AF.build(qs, form)
+    v = _guarded(fn, arg, form, desc, case)
+    try:
+        return [float(x) for x in AF.flat(v, shape)]
+    except ValueError as e:
+        raise Violation("c20:formula:shape", "%s with Q as %s: %s" % (desc, form_label(form), e), case)
 
 
 def _atom_of_label(T, label):
@@ -439,10 +479,13 @@ def check_reuse(ctx, value):
     E = env()
     T = E["tables"][which]
     case = {"kind": "q", "value": value}
-    how = "list" if how == "list" else "ndarray"
-    Q = list(qs) if how == "list" else numpy.array(qs, dtype=float)
+    if how == "scalar":
+        how = "ndarray"
+    qform = _form(how, qs)
+    Q, shape = AF.build(qs, qform)
     S = [q / (4 * math.pi) for q in qs]
-    stol = list(S) if how == "list" else numpy.array(S, dtype=float)
+    sform = _form(how, S)
+    stol, sshape = AF.build(S, sform)
     states = sorted((sy, c) for sy, v in E["oracle"]["magnetic"].items() for c in v)
     labels = sorted(E["oracle"]["cm"])
     two_states = [states[idx % len(states)], states[(idx // 97 + 7 * jsel + 1) % len(states)]]
@@ -455,38 +498,48 @@ def check_reuse(ctx, value):
             base = "j0" if jn == "M" else jn
             if base not in ent:
                 continue
-            calls.append(("%s %s.magnetic_ff[%d].%s_Q" % (which, sym, c, jn), getattr(ff, jn + "_Q"), Q,
+            calls.append(("%s %s.magnetic_ff[%d].%s_Q" % (which, sym, c, jn), getattr(ff, jn + "_Q"), "Q",
                           [mff_value(ent[base][-1], base, q) for q in qs], "c20:formula:reuse:magnetic"))
     for label in two_labels:
         ent = E["oracle"]["cm"][label]
         wants = [cm_value(ent, q) for q in qs]
         atom = _atom_of_label(T, label)
         if atom is not None:
-            calls.append(("%s %r.xray.f0" % (which, atom), atom.xray.f0, Q, wants, "c20:formula:reuse:cm"))
-        calls.append(("fxrayatq(%r, Q)" % label, (lambda g, label=label: cromermann.fxrayatq(label, g)), Q, wants,
+            calls.append(("%s %r.xray.f0" % (which, atom), atom.xray.f0, "Q", wants, "c20:formula:reuse:cm"))
+        calls.append(("fxrayatq(%r, Q)" % label, (lambda g, label=label: cromermann.fxrayatq(label, g)), "Q", wants,
                       "c20:formula:reuse:cm"))
-        calls.append(("fxrayatstol(%r, Q/4pi)" % label, (lambda g, label=label: cromermann.fxrayatstol(label, g)), stol,
+        calls.append(("fxrayatstol(%r, Q/4pi)" % label, (lambda g, label=label: cromermann.fxrayatstol(label, g)), "stol",
                       wants, "c20:formula:reuse:cm"))
     if jsel % 2:
         calls.reverse()
+    grids = {"Q": (Q, shape, qform, qs), "stol": (stol, sshape, sform, S)}
     ctx.case(repr(value), nontrivial=any(q > 0 for q in qs),
-             sample={"reuse": [c[0] for c in calls], "Q": qs, "how": how},
-             cls=["q:reuse:" + how, "reuse-calls:%d" % min(len(calls), 18), "table:" + which])
-    for n, (desc, fn, grid, wants, bucket) in enumerate(calls):
-        got = numpy.asarray(fn(grid))
-        if got.shape != (len(qs),):
-            raise Violation("c20:formula:shape", "%s: %d Q values gave shape %r" % (desc, len(qs), got.shape), case)
+             sample={"reuse": [c[0] for c in calls], "Q": qs, "form": form_label(qform)},
+             cls=["q:reuse", "form:" + form_label(qform), "reuse-calls:%d" % min(len(calls), 18), "table:" + which])
+    for n, (desc, fn, gname, wants, bucket) in enumerate(calls):
+        grid, gshape, gform, _vals = grids[gname]
+        try:
+            res = fn(grid)
+        except ValueError as e:
+            if gform[0] == "nd" and gform[3] and "read-only" in str(e):
+                raise Violation("c20:argument-modified:" + gname,
+                                "%s tried to write into its read-only argument: %s" % (desc, e), case)
+            raise
+        try:
+            got = AF.flat(res, gshape)
+        except ValueError as e:
+            raise Violation("c20:formula:shape", "%s with %s as %s: %s" % (desc, gname, form_label(gform), e), case)
         for q, g, (w, scale) in zip(qs, got, wants):
             g = float(g)
             if not (g == g) or abs(g - w) > 1e-12 * scale + TINY:
                 raise Violation(bucket, "%s(%r) = %r as call #%d on one %s grid, the documented expression gives %r"
-                                % (desc, q, g, n + 1, how, w), case)
-    for name, grid, want in (("Q", Q, qs), ("stol", stol, S)):
-        now = [float(x) for x in grid]
-        if len(now) != len(want) or any(a != b for a, b in zip(now, want)) or \
-                (how == "ndarray" and grid.dtype != numpy.float64):
-            raise Violation("c20:argument-modified:" + name,
-                            "after %d calls the caller's %s %s is %r, it was %r" % (len(calls), how, name, now, want), case)
+                                % (desc, q, g, n + 1, form_label(gform), w), case)
+    for gname, (grid, gshape, gform, vals) in sorted(grids.items()):
+        fresh = AF.build(vals, gform)[0]
+        if not same_value(fresh, grid):
+            raise Violation("c20:argument-modified:" + gname,
+                            "after %d calls the caller's %s (%s) is %r, it was %r"
+                            % (len(calls), gname, form_label(gform), grid, fresh), case)
 
 
 def check_q(ctx, value):
@@ -504,8 +557,8 @@ def check_q(ctx, value):
         jn = orders[jsel % len(orders)]
         coef = ent["j0" if jn == "M" else jn][-1]
         ff = T.symbol(sym).magnetic_ff[c]
-        got = _call(getattr(ff, jn + "_Q"), qs, how, case)
         desc = "%s %s.magnetic_ff[%d].%s_Q" % (which, sym, c, jn)
+        got = _call(getattr(ff, jn + "_Q"), qs, how, case, desc)
         wants = [mff_value(coef, "j0" if jn == "M" else jn, q) for q in qs]
         bucket = "c20:formula:magnetic:" + ("j0" if jn in ("j0", "M", "J") else "jn")
         cls = ["q:magnetic:" + jn]
@@ -520,8 +573,8 @@ def check_q(ctx, value):
                                    int(m.group(3) + m.group(2)) in T.symbol(m.group(1)).ions):
             el = T.symbol(m.group(1))
             atom = el.ion[int(m.group(3) + m.group(2))] if m.group(2) else el
-            got = _call(atom.xray.f0, qs, how, case)
             desc = "%s %r.xray.f0" % (which, atom)
+            got = _call(atom.xray.f0, qs, how, case, desc)
             cls = ["q:f0:" + ("ion" if m.group(2) else "element")]
         else:
             from periodictable import cromermann
@@ -529,25 +582,55 @@ def check_q(ctx, value):
                 # sin(theta)/lambda entry point; the reference stays a function of the intended Q
                 ss = [q / (4 * math.pi) for q in qs]
                 wants = [cm_value(ent, 4 * math.pi * x) for x in ss]
-                got = _call(lambda x: cromermann.fxrayatstol(label, x), ss, how, case)
                 desc = "fxrayatstol(%r, s) at s=Q/4pi, Q" % label
+                got = _call(lambda x: cromermann.fxrayatstol(label, x), ss, how, case, desc)
                 cls = ["q:fxrayatstol"]
             else:
-                got = _call(lambda q: cromermann.fxrayatq(label, q), qs, how, case)
                 desc = "fxrayatq(%r, Q)" % label
+                got = _call(lambda q: cromermann.fxrayatq(label, q), qs, how, case, desc)
                 cls = ["q:fxrayatq"]
-    cls += ["call:" + how, "table:" + which]
-    ctx.case(repr(value), nontrivial=any(q > 0 for q in qs), sample={"call": desc, "Q": qs, "how": how}, cls=cls)
+    cls += ["form:" + form_label(how if how == "scalar" else _form(how, qs)), "table:" + which]
+    ctx.case(repr(value), nontrivial=any(q > 0 for q in qs), sample={"call": desc, "Q": qs, "form": form_label(how)}, cls=cls)
     for q, g, (w, scale) in zip(qs, got, wants):
         if not (g == g) or abs(g - w) > 1e-12 * scale + TINY:
             raise Violation(bucket, "%s(%r) = %r, the documented expression gives %r" % (desc, q, g, w), case)
 
 
-def q_strategy():
-    q = st.one_of(st.floats(0, 30), st.floats(0, 30), st.floats(0, 1), st.sampled_from([0.0, 30.0, 4 * math.pi]))
-    return st.tuples(st.sampled_from(["magnetic", "magnetic", "cm", "f0", "reuse"]), st.integers(0, 10**4), st.integers(0, 11),
-                     st.lists(q, min_size=1, max_size=6), st.sampled_from(["scalar", "list", "ndarray"]),
-                     st.sampled_from(["public", "private"])).map(list)
+_STRATS = {}
+
+
+def _how_strategy(single, integral):
+    """Argument-form strategy (built once per kind of value list)."""
+    key = (single, integral)
+    if key not in _STRATS:
+        n = 1 if single else 2
+        nd = st.tuples(st.just("nd"), st.sampled_from(AF.LAYOUTS),
+                       st.sampled_from(["float64", "float64", "int64", "int32"] if integral else ["float64"]),
+                       st.booleans()).map(list)
+        _STRATS[key] = st.one_of(st.just("scalar"), AF.forms(n, integral=integral), AF.forms(n, integral=integral), nd)
+    return _STRATS[key]
+
+
+def _qs_strategy():
+    if "qs" not in _STRATS:
+        q = st.one_of(st.floats(0, 30), st.floats(0, 30), st.floats(0, 1), st.integers(0, 30).map(float),
+                      st.sampled_from([0.0, 30.0, 4 * math.pi]))
+        _STRATS["qs"] = st.one_of(
+            st.lists(q, min_size=1, max_size=6),
+            st.lists(q, min_size=2, max_size=3).map(lambda v: v + v[::-1]),        # even length: true 2-D layouts
+            st.lists(st.integers(0, 30).map(float), min_size=1, max_size=6),       # integer dtypes apply
+            st.tuples(q, st.integers(2, 6)).map(lambda t: [t[0]] * t[1]))          # broadcast views apply
+        _STRATS["head"] = st.tuples(st.sampled_from(["magnetic", "magnetic", "cm", "f0", "reuse"]),
+                                    st.integers(0, 10**4), st.integers(0, 11), st.sampled_from(["public", "private"]))
+    return _STRATS["qs"]
+
+
+@st.composite
+def q_strategy(draw):
+    qs = draw(_qs_strategy())
+    kind, idx, jsel, which = draw(_STRATS["head"])
+    how = draw(_how_strategy(len(qs) == 1, AF.integral_ok(qs)))
+    return [kind, idx, jsel, qs, how, which]
 
 
 def task_q(ctx, n):
@@ -561,7 +644,7 @@ def tasks(tier):
            ("tables-private", task_tables, dict(which="private")),
            ("cromer-mann", task_cm, {})]
     if tier == "quick":
-        out += [("q-%d" % k, task_q, dict(n=2000)) for k in range(5)]
+        out += [("q-%d" % k, task_q, dict(n=3500)) for k in range(5)]
     else:
         out += [("q-%d" % k, task_q, dict(n=45000)) for k in range(13)]
     return out
